@@ -168,9 +168,23 @@ def generate(rng, tier):
         elif r < 0.90:
             ops.append({"op": "save_fmt"})
         elif r < 0.95:
-            ops.append({"op": "remove_columns", "names": rng.sample(fields, rng.randint(1, 2))})
-        else:
+            ops.append({"op": "remove_columns", "names": rng.sample(fields, rng.randint(1, 2)),
+                        "via_fmt_obj": rng.random() < 0.4})
+        elif r < 0.975:
             ops.append({"op": "fmt_obj_ctor"})
+        else:
+            # a sibling table built from this table's format object, showing other records
+            ops.append({"op": "sibling", "keep": rng.choice(["half", "odd", "all", "first"]),
+                        "limits": rng.choice([None, None, [1, 1], [0, 2], [2, 0]])})
+    ntbl = 1 + sum(1 for o in ops if o["op"] == "sibling")
+    if ntbl > 1:
+        seen = 1
+        for o in ops:
+            if o["op"] == "sibling":
+                o["tbl"] = rng.randrange(seen)
+                seen += 1
+            elif not o["op"].startswith("task_") or o["op"] == "task_start":
+                o["tbl"] = rng.randrange(seen)
     for t in sorted(live):
         ops.append({"op": "task_drain", "task": t})
     ops.append({"op": "probe", "no_color": False})
@@ -192,7 +206,7 @@ def simplify(trace):
 # --------------------------------------------------------------------------
 
 class Task:
-    __slots__ = ("it", "lines", "want", "valid", "no_color", "steps_after_noop")
+    __slots__ = ("it", "lines", "want", "valid", "no_color", "steps_after_noop", "ctx")
 
     def __init__(self):
         self.it = None
@@ -201,6 +215,9 @@ class Task:
         self.valid = True
         self.no_color = False
         self.steps_after_noop = 0
+
+
+_SPEC = object()
 
 
 class World:
@@ -214,24 +231,45 @@ class World:
         self.enums = {0: rw.ro.build_enum(trace["enums"][0])}
         self.wtypes = {}
         self.spec = trace["table"]
-        self.table = None
-        self.records = None
+        self.ctxs = []
         self.tasks = {}
-        self.saved = []
-        self.printed = False
         self.last_text = None
-        self.expect = None
         self.stats = {"probes": 0, "probe_fresh": 0, "probe_printed": 0, "probe_inflight": 0,
                       "probe_ranged_printed": 0, "noop_assign": 0, "noop_assign_inflight": 0, "real_changes": 0,
                       "ctor_roundtrips": 0, "setter_roundtrips": 0, "tasks_completed": 0, "tasks_invalidated": 0,
                       "tasks_abandoned": 0, "task_steps": 0, "renders": 0, "removed": 0, "fmt_obj_ctor": 0,
-                      "agreed_errors": 0, "limits_in_fmt": 0, "lines_skipped_states": 0}
+                      "agreed_errors": 0, "limits_in_fmt": 0, "lines_skipped_states": 0, "siblings": 0,
+                      "probe_sibling": 0}
 
 
 
-def build_table(w, fmt=None, fmt_obj=None, with_limits=True):
+class Ctx:
+    """one table of the run (the main one, or a sibling built from another table's format object)"""
+
+    def __init__(self, keep="all", limits=_SPEC):
+        self.table = None
+        self.keep = keep
+        self.limits = limits
+        self.printed = False
+        self.expect = None
+        self.saved = []
+
+
+def _subset(recs, keep):
+    if keep == "half":
+        return recs[: max(1, len(recs) // 2)]
+    if keep == "odd":
+        return recs[::2]
+    if keep == "first":
+        return recs[:1]
+    return recs
+
+
+def build_table(w, fmt=None, fmt_obj=None, with_limits=True, ctx=None):
     spec = w.spec
     recs = rw.ro._records(spec)
+    if ctx is not None:
+        recs = _subset(recs, ctx.keep)
     kw = {}
     if fmt_obj is None:
         if not spec.get("nt"):
@@ -247,8 +285,9 @@ def build_table(w, fmt=None, fmt_obj=None, with_limits=True):
         kw["fmt"] = fmt
     else:
         kw["fmt_obj"] = fmt_obj
-    if with_limits and spec.get("limits") is not None:
-        kw["limits"] = tuple(spec["limits"])
+    limits = spec.get("limits") if (ctx is None or ctx.limits is _SPEC) else ctx.limits
+    if with_limits and limits is not None:
+        kw["limits"] = tuple(limits)
     return w.PPTable(recs, header=spec.get("header"), footer=spec.get("footer"), **kw)
 
 
@@ -283,35 +322,38 @@ def has_negotiated_range(table):
     return "(" in s.split(";")[0]
 
 
-def invalidate_tasks(w):
+def invalidate_tasks(w, c):
     for t in w.tasks.values():
-        if t.valid:
+        if t.valid and t.ctx is c:
             t.valid = False
             w.stats["tasks_invalidated"] += 1
 
 
-def probe(w, no_color):
+def probe(w, c, no_color):
     """the round-trip probe, at this very moment of the table's life"""
-    t = w.table
+    t = c.table
     st = w.stats
     st["probes"] += 1
-    inflight = any(x.it is not None for x in w.tasks.values())
+    if c is not w.ctxs[0]:
+        st["probe_sibling"] += 1
+    inflight = any(x.it is not None and x.ctx is c for x in w.tasks.values())
     if inflight:
         st["probe_inflight"] += 1
-    if w.printed:
+    if c.printed:
         st["probe_printed"] += 1
         if has_negotiated_range(t):
             st["probe_ranged_printed"] += 1
     else:
         st["probe_fresh"] += 1
-    s = sut("str(table.fmt)", str, t.fmt)
+    # "repr of this object contains fmt string which can be used to apply new format": both spellings
+    s = sut("str(table.fmt)", str, t.fmt) if st["probes"] % 2 else sut("repr(table.fmt)", repr, t.fmt)
     if ";" in s:
         st["limits_in_fmt"] += 1
     w.log.add("probe-fmt", s)
     # (a) the constructor accepts it and reproduces the table
-    t2 = sut(f"PPTable(fmt=str(table.fmt))", build_table, w, s, None, False)
+    t2 = sut(f"PPTable(fmt=str(table.fmt))", build_table, w, s, None, False, c)
     r0 = sut("render(table)", render, w, t, no_color)
-    w.printed = True
+    c.printed = True
     r2 = sut("render(PPTable(fmt=str(table.fmt)))", render, w, t2, no_color)
     st["ctor_roundtrips"] += 1
     if r2 != r0:
@@ -342,36 +384,46 @@ def execute(trace, rng):
     status = {"status": OK}
     try:
         try:
-            w.table = build_table(w, w.spec.get("fmt"))
+            w.ctxs.append(Ctx())
+            w.ctxs[0].table = build_table(w, w.spec.get("fmt"))
         except Exception as e:
             # a format the constructor rejects is an input matter (C12), not a round-trip matter
             raise _Skip(repr(e))
         for n, op in enumerate(trace["ops"]):
             k = op["op"]
-            t = w.table
-            if k == "render":
+            c = w.ctxs[op.get("tbl", 0) % len(w.ctxs)]
+            t = c.table
+            if k == "sibling":
+                if len(w.ctxs) >= 3:
+                    continue
+                nc = Ctx(op.get("keep", "all"), op.get("limits"))
+                nc.table = sut("PPTable(other records, fmt_obj=table.fmt)", build_table, w, None, t.fmt, True, nc)
+                w.ctxs.append(nc)
+                w.stats["siblings"] += 1
+            elif k == "render":
                 if op.get("how") == "lines":
                     lines = sut("iterate", lambda: [rw.ro.line_to_str(x) for x in t.ch_text(colors_conf=w.conf, no_color=bool(op.get("no_color")))])
                     text = "\n".join(lines)
                 else:
                     text = sut("render(table)", render, w, t, bool(op.get("no_color")))
-                    if w.expect is not None and not op.get("no_color"):
-                        before, which, s = w.expect
-                        w.expect = None
+                    if c.expect is not None and not op.get("no_color"):
+                        before, which, s = c.expect
+                        c.expect = None
                         if text != before:
                             raise Violation("noop", f"assignment-{which}-changes-table",
                                             f"fmt = {s!r} changed the rendering: " + first_diff(text, before))
-                w.printed = True
+                c.printed = True
                 w.stats["renders"] += 1
                 log.add("render", n, hashlib.blake2b(text.encode(), digest_size=6).hexdigest())
             elif k == "probe":
-                probe(w, bool(op.get("no_color")))
+                probe(w, c, bool(op.get("no_color")))
             elif k == "task_start":
                 old = w.tasks.pop(op["task"], None)
                 if old is not None and old.it is not None:
                     old.it.close()
                     w.stats["tasks_abandoned"] += 1
                 task = Task()
+                task.ctx = c
                 task.no_color = bool(op.get("no_color"))
                 res = sut("ch_text()", t.ch_text, colors_conf=w.conf, no_color=task.no_color)
                 task.it = sut("iter(result)", iter, res)
@@ -380,7 +432,7 @@ def execute(trace, rng):
                     if line is not _END:
                         task.lines.append(rw.ro.line_to_str(line))
                 task.want = sut("render(table)", render, w, t, task.no_color)
-                w.printed = True
+                c.printed = True
                 w.tasks[op["task"]] = task
             elif k in ("task_step", "task_drain"):
                 task = w.tasks.get(op["task"])
@@ -422,10 +474,10 @@ def execute(trace, rng):
                     w.stats["tasks_abandoned"] += 1
             elif k == "set_fmt":
                 which = op["which"]
-                inflight = any(x.it is not None for x in w.tasks.values())
+                inflight = any(x.it is not None and x.ctx is c for x in w.tasks.values())
                 if which in ("current", "empty", "semi", "semi2", "none_cols"):
                     before = sut("render(table)", render, w, t, False)
-                    w.printed = True
+                    c.printed = True
                     if which == "current":
                         s = sut("str(table.fmt)", str, t.fmt)
                     else:
@@ -440,10 +492,11 @@ def execute(trace, rng):
                     if inflight:
                         w.stats["noop_assign_inflight"] += 1
                     for x in w.tasks.values():
-                        x.steps_after_noop = 0
+                        if x.ctx is c:
+                            x.steps_after_noop = 0
                     if op.get("defer"):
                         # compare at the next whole rendering: a line task may run first
-                        w.expect = (before, which, s)
+                        c.expect = (before, which, s)
                     else:
                         after = sut("render(table)", render, w, t, False)
                         if after != before:
@@ -451,9 +504,9 @@ def execute(trace, rng):
                                             f"fmt = {s!r} changed the rendering: " + first_diff(after, before))
                 else:
                     if which == "saved":
-                        if not w.saved:
+                        if not c.saved:
                             continue
-                        s = w.saved[n % len(w.saved)]
+                        s = c.saved[n % len(c.saved)]
                         sut("table.fmt = <format string reported earlier by this table>", t.set_fmt, s)
                     elif which == "star":
                         sut("table.fmt = '*'", t.set_fmt, "*")
@@ -465,24 +518,28 @@ def execute(trace, rng):
                             w.stats["agreed_errors"] += 1
                             continue
                     w.stats["real_changes"] += 1
-                    w.printed = False
-                    w.expect = None
-                    invalidate_tasks(w)
+                    c.printed = False
+                    c.expect = None
+                    invalidate_tasks(w, c)
             elif k == "save_fmt":
-                w.saved.append(sut("str(table.fmt)", str, t.fmt))
+                c.saved.append(sut("str(table.fmt)", str, t.fmt))
             elif k == "remove_columns":
                 cur = columns_of(str(t.fmt))
                 left = [c for c in cur if c not in op["names"]]
                 if not left or len(left) == len(cur):
                     continue
-                sut("remove_columns", t.remove_columns, list(op["names"]))
+                if op.get("via_fmt_obj"):
+                    # the same operation offered by the format object itself
+                    sut("table.fmt.remove_columns", t.fmt.remove_columns, list(op["names"]))
+                else:
+                    sut("remove_columns", t.remove_columns, list(op["names"]))
                 w.stats["removed"] += 1
-                w.expect = None
-                invalidate_tasks(w)
+                c.expect = None
+                invalidate_tasks(w, c)
             elif k == "fmt_obj_ctor":
                 r0 = sut("render(table)", render, w, t, False)
-                w.printed = True
-                t3 = sut("PPTable(fmt_obj=table.fmt)", build_table, w, None, t.fmt, False)
+                c.printed = True
+                t3 = sut("PPTable(fmt_obj=table.fmt)", build_table, w, None, t.fmt, False, c)
                 r3 = sut("render(PPTable(fmt_obj=table.fmt))", render, w, t3, False)
                 w.stats["fmt_obj_ctor"] += 1
                 if r3 != r0:
